@@ -30,7 +30,13 @@ VARIABLES l, k, cur
 Trace == ndJsonDeserialize(IOEnv.VERIF_TRACE)
 N     == Len(Trace)
 
-PlayOf(e) == [tracks |-> e.tracks, sel |-> {e.sel[i] : i \in DOMAIN e.sel}, ports |-> e.ports]
+\* The scheduled times are the library's own (TracksReader.Do; that they follow the tempo map is C11).  Where they are
+\* not even monotone within a track, "merged by non-decreasing time" and "never early" have no meaning to judge against;
+\* the schedule-free clauses -- exactly once, no meta event, the mapped port, THE ORDER WITHIN A TRACK -- still have:
+\* such a play is judged with all scheduled times taken as 0.
+Monotone(e) == \A i \in DOMAIN e.tracks : \A j \in 1..(Len(e.tracks[i]) - 1) : e.tracks[i][j].us <= e.tracks[i][j + 1].us
+Flat(tr)    == [i \in DOMAIN tr |-> [j \in DOMAIN tr[i] |-> [tr[i][j] EXCEPT !.us = 0]]]
+PlayOf(e) == [tracks |-> IF Monotone(e) THEN e.tracks ELSE Flat(e.tracks), sel |-> {e.sel[i] : i \in DOMAIN e.sel}, ports |-> e.ports]
 Plays == [i \in 1..N |-> PlayOf(Trace[i])]
 Acts  == [i \in 1..N |-> Active(Plays[i])]
 
